@@ -519,7 +519,7 @@ func SexpToGo(sexp Sexp, env *Zlisp, dedup map[*SexpHash]interface{}) (result in
 		}
 
 		m := make(map[string]interface{})
-		for _, arr := range e.Map {
+		for _, arr := range e.bucketsInKeyOrder() {
 			for _, pair := range arr {
 				key := SexpToGo(pair.Head, env, dedup)
 				val := SexpToGo(pair.Tail, env, dedup)
@@ -814,7 +814,7 @@ func SexpToGoStructs(
 			switch target.(type) {
 			case *map[string]string:
 				m := make(map[string]string)
-				for _, arr := range src.Map {
+				for _, arr := range src.bucketsInKeyOrder() {
 					for _, pair := range arr {
 						key := SexpToGo(pair.Head, env, dedup)
 						val := SexpToGo(pair.Tail, env, dedup)
@@ -834,7 +834,7 @@ func SexpToGoStructs(
 
 			case *map[string]float64:
 				m := make(map[string]float64)
-				for _, arr := range src.Map {
+				for _, arr := range src.bucketsInKeyOrder() {
 					for _, pair := range arr {
 						key := SexpToGo(pair.Head, env, dedup)
 						val := SexpToGo(pair.Tail, env, dedup)
@@ -859,7 +859,7 @@ func SexpToGoStructs(
 				//P("target is a map[int64]float64")
 
 				m := make(map[int64]float64)
-				for _, arr := range src.Map {
+				for _, arr := range src.bucketsInKeyOrder() {
 					for _, pair := range arr {
 						key := SexpToGo(pair.Head, env, dedup)
 						val := SexpToGo(pair.Tail, env, dedup)
@@ -891,7 +891,7 @@ func SexpToGoStructs(
 					pmap := reflect.MakeMap(targElemTyp)
 					//P(" pmap starts out as %v/type = %T", pmap, pmap.Interface())
 					// if targ is *[]int, then targElem is []int, targElem.Elem() is int.
-					for _, arr := range src.Map {
+					for _, arr := range src.bucketsInKeyOrder() {
 						for _, pair := range arr {
 							key := SexpToGo(pair.Head, env, dedup)
 							//val := SexpToGo(pair.Tail, env, dedup)
@@ -1010,7 +1010,7 @@ func SexpToGoStructs(
 			panic(fmt.Errorf("type checking failed compare the factor associated with SexpHash and the provided target *T: expected '%s' (associated with typename '%s' in the GoStructRegistry) but saw '%s' type in target", tn, factType, targTyp))
 		}
 		//maploop:
-		for _, arr := range src.Map {
+		for _, arr := range src.bucketsInKeyOrder() {
 			for _, pair := range arr {
 				recordKey = ""
 				switch k := pair.Head.(type) {
